@@ -250,6 +250,29 @@ theorem muxInsert_spec (gc gs : Int) (cs cs' : List Child) (c : Child)
             subst hd
             exact ⟨fun g hg' => ⟨(hids g hg').1, (hids g hg').2.1⟩, compactSort_strict _⟩
 
+/-- `InsertSignal` does not change the kind of the signal -/
+theorem muxInsert_isMux (gc gs : Int) (cs cs' : List Child) (c c' : Child)
+    (h : muxInsert gc gs cs c = .ok cs') (hc : cs' = cs ++ [c']) : c'.isMux = c.isMux := by
+  unfold muxInsert at h
+  split at h
+  · cases h
+  · split at h
+    · split at h
+      · cases h
+      · injection h with h
+        rw [← h] at hc
+        have := List.append_cancel_left hc
+        injection this with this
+        rw [← this]
+    · dsimp only at h
+      split at h
+      · cases h
+      · injection h with h
+        rw [← h] at hc
+        have := List.append_cancel_left hc
+        injection this with this
+        rw [← this]
+
 /-! ### insertion into the message -/
 
 theorem calcSize_pos (v : Int) : 0 < calcSize v := by
